@@ -5,10 +5,30 @@ import argparse
 import os
 import sys
 
+import json
+import subprocess
+
 from engines.xh.driver import run_e1
+from engines.xh.runner import PY_PLAIN, VERIF
 from props.C13 import tok_obligations, FUNCS, STUBS, ASSUME
 
 PROP = "C05"
+
+
+def watchdog_probe(o, r):
+    """Plain-interpreter search of the obligation's own bound under an alarm; only used to obtain a witness."""
+    env = dict(os.environ, XH_PARAMS=json.dumps(o.params), PYTHONPATH=VERIF + ":" + os.environ.get("VERIF_REPO", "/repo"))
+    try:
+        p = subprocess.run(["timeout", "-k", "5", "120", PY_PLAIN, os.path.join(VERIF, "engines", "xh", "hang_probe.py"),
+                            os.path.join(VERIF, "harness", o.harness), "6000", "3"], capture_output=True, text=True, env=env, cwd=VERIF)
+    except Exception:
+        return None
+    for line in p.stdout.splitlines():
+        if line.startswith("PROBE "):
+            out = json.loads(line[6:])
+            if out.get("witness"):
+                return {"args": {"h": out["witness"]["h"]}, "why": out["witness"]["why"]}
+    return None
 
 
 def main(argv=None) -> int:
@@ -29,7 +49,7 @@ def main(argv=None) -> int:
         assumptions=ASSUME + ["a loop that spins without calling any counted method would show as CrossHair path time-outs (inconclusive), not as a confirmation"],
         rule="one obligation per (tokenizer family representative, context template, hole length bound); assertion: tokenize returns "
              "a list or raises TokenError, nothing else, within the step budget. Non-trivial = Confirmed over all paths and twin reached.",
-        bounds=bounds,
+        bounds=bounds, inconclusive_probe=watchdog_probe,
     )
 
 
